@@ -492,7 +492,7 @@ pub fn run_filtered(target: &str, data: &[u8], only: Option<&str>) -> (&'static 
                 3 => c17::Step::DeliverAll,
                 4 | 5 => c17::Step::Interrupted,
                 6 => c17::Step::Eof,
-                _ => c17::Step::Error(c.u8() % c17::KINDS.len() as u8),
+                _ => c17::Step::Error(c.u8() % 8),
             };
             let count = |c: &mut Cursor| match c.u8() % 6 {
                 0 => 0,
